@@ -162,7 +162,8 @@ pub fn check(c: &mut Case, a: &ASet, name: &str) {
     }
     // library round trip
     let back = c.lib("BinArchive::from_bytes + ASetFile::from_archive", || -> Result<ASetFile, String> {
-        let arch = BinArchive::from_bytes(&img, Endian::Little).map_err(|e| e.to_string())?;
+        let img_t = crate::monitor::tight(&img);
+        let arch = BinArchive::from_bytes(&img_t, Endian::Little).map_err(|e| e.to_string())?;
         ASetFile::from_archive(&arch).map_err(|e| e.to_string())
     });
     match back {
